@@ -1,10 +1,17 @@
 /-
 C04 — mask_password hides every supported secret and changes nothing else.
-(work in progress: table obligations first)
+
+Property theorems only (helper lemmas live in OsloProofs/Lemmas/C04*.lean).
+The model is OsloModel/Mask.lean over the *generated* tables
+(OsloModel/Generated/Mask.lean, written from the live strutils on every run).
 -/
 import OsloModel.Mask
+import OsloProofs.Lemmas.C04Flat
+import OsloProofs.Lemmas.C04Mask
 namespace Oslo.Mask
 open Oslo.Flat
+
+/-! ### the tables -/
 
 /-- the 35 keys named by the property (strutils.py:69-79 at the pinned commit) -/
 def specKeys : List String :=
@@ -15,6 +22,83 @@ def specKeys : List String :=
    "heatauthencryptionkey", "cephclientkey", "keystonecredential", "barbicansimplecryptokek", "cephrgwkey",
    "swifthashsuffix", "migrationsshkey", "cephmdskey", "cephmonkey", "chapsecret"]
 
-theorem sanitize_keys_cover_spec : ∀ k ∈ specKeys, k ∈ Gen.sanitizeKeyNames := by decide
+/-- every key the property names is in the list the code uses -/
+theorem sanitize_keys_cover_spec : ∀ k ∈ specKeys, k.toList ∈ Gen.sanitizeKeys := by decide
+
+/-! The reviewed templates: what the twelve patterns of strutils.py:91-108 compile to, with the key
+abstracted, case-insensitivity folded in and `\s` = `Gen.wsRanges`. -/
+
+def digitC : Cls := cls [(48, 57)]                                   -- [0-9]
+def wsC : Cls := cls Gen.wsRanges                                     -- \s
+def eqC : Cls := cls [(61, 61)]                                       -- [=]
+def quoteC : Cls := cls [(34, 34), (39, 39)]                          -- ["']
+def dqC : Cls := cls [(34, 34)]
+def sqC : Cls := cls [(39, 39)]
+def nquoteC : Cls := ncls [(34, 34), (39, 39)]                        -- [^"']
+def bareC : Cls := ncls (Gen.wsRanges ++ [(34, 34), (39, 39)])        -- [^\s'"]
+def dashValC : Cls := ncls (Gen.wsRanges ++ [(34, 34), (39, 39), (61, 61)])  -- [^'"=\s]
+def dashC : Cls := cls [(45, 45)]
+def uC : Cls := cls [(85, 85), (117, 117)]                            -- u under IGNORECASE
+def flagC : Cls := cls [(65, 122), (304, 305), (383, 383), (8490, 8490)]  -- [A-z] under IGNORECASE
+def colonC : Cls := cls [(58, 58)]
+def commaC : Cls := cls [(44, 44)]
+def ltC : Cls := cls [(60, 60)]
+def gtC : Cls := cls [(62, 62)]
+def slashC : Cls := cls [(47, 47)]
+
+def tplEqQuoted : Template := ⟨[.key, star digitC, star wsC, one eqC, star wsC, one quoteC], [star nquoteC], [one quoteC]⟩
+def tplEqDq : Template := ⟨[.key, star digitC, star wsC, one eqC, star wsC, one dqC], [star (ncls [(34, 34)])], [one dqC]⟩
+def tplEqSq : Template := ⟨[.key, star digitC, star wsC, one eqC, star wsC, one sqC], [star (ncls [(39, 39)])], [one sqC]⟩
+def tplKeyQuoted : Template := ⟨[.key, star digitC, plus wsC, one quoteC], [star nquoteC], [one quoteC]⟩
+def tplDashDash : Template := ⟨[rep dashC 2 (some 2), .key, star digitC, plus wsC], [plus dashValC], [star wsC]⟩
+def tplXml : Template := ⟨[one ltC, .key, star digitC, one gtC], [star (ncls [(60, 60)])],
+                          [one ltC, one slashC, .key, star digitC, one gtC]⟩
+def tplColonQuoted : Template :=
+  ⟨[one quoteC, .key, star digitC, one quoteC, star wsC, one colonC, star wsC, one quoteC], [star nquoteC], [one quoteC]⟩
+def tplColonPrefixed : Template :=
+  ⟨[one quoteC, star nquoteC, .key, star digitC, one quoteC, star wsC, one colonC, star wsC, opt uC, one quoteC],
+   [star nquoteC], [one quoteC]⟩
+def tplCmdList : Template :=
+  ⟨[one quoteC, star nquoteC, .key, star digitC, one quoteC, star wsC, one commaC, star wsC, one sqC, one dashC,
+    opt dashC, plus flagC, one sqC, star wsC, one commaC, star wsC, opt uC, one quoteC],
+   [star nquoteC], [one quoteC]⟩
+def tplCmdFlag : Template :=
+  ⟨[.key, star digitC, star wsC, one dashC, opt dashC, plus flagC, star wsC], [plus (ncls Gen.wsRanges)], [star wsC]⟩
+def tplEqBare : Template := ⟨[.key, star digitC, star wsC, one eqC, star wsC], [plus bareC], []⟩
+def tplWildcard : Template :=
+  ⟨[one quoteC, star nquoteC, .key, star digitC, one quoteC, star wsC, one colonC, star wsC, opt uC, one quoteC,
+    star (ncls []), one quoteC],
+   [star nquoteC], [one quoteC]⟩
+
+/-- the generated templates (from the live compiled patterns) are the reviewed ones, in the code's order;
+    an edited, added, removed or reordered pattern breaks this -/
+theorem templates_as_reviewed :
+    Gen.patterns2 = [tplEqQuoted, tplEqDq, tplEqSq, tplKeyQuoted, tplDashDash, tplXml, tplColonQuoted,
+                     tplColonPrefixed, tplCmdList, tplCmdFlag] ∧
+    Gen.patterns1 = [tplEqBare] ∧ Gen.patternsWildcard = [tplWildcard] ∧
+    Gen.ignoreCase = true ∧ Gen.foldExtra = [(105, [304, 305]), (107, [8490]), (115, [383])] := by
+  decide
+
+/-! ### no key, no change -/
+
+theorem lemma_maskWith_nokey (mask msg : List Char) : ∀ (keys : List (List Char)),
+    (∀ key ∈ keys, isInfix key (pyLower msg) = false) → maskWith keys mask msg = msg := by
+  intro keys
+  induction keys with
+  | nil => intro _; rfl
+  | cons k keys ih =>
+    intro h
+    have hk : isInfix k (pyLower msg) = false := h k (by simp)
+    have : maskStep mask msg k = msg := by simp [maskStep, hk]
+    simp only [maskWith, List.foldl_cons, this]
+    exact ih (fun key hkey => h key (by simp [hkey]))
+
+/-- a message in whose lower-casing no sanitize key occurs is returned unchanged (every message, every mask) -/
+theorem mask_nokey_id (msg mask : List Char)
+    (h : ∀ key ∈ Gen.sanitizeKeys, isInfix key (pyLower msg) = false) : maskPassword msg mask = msg :=
+  lemma_maskWith_nokey mask msg Gen.sanitizeKeys h
+
+example : ∀ key ∈ Gen.sanitizeKeys, isInfix key (pyLower "user=bob pass word=1 ſecret=2".toList) = false := by
+  decide
 
 end Oslo.Mask
